@@ -788,11 +788,24 @@ func runBMC(eng *symgo.Engine, cfg symgo.HarnessCfg, j job, tier string) (*symgo
 	if cfg.MaxRecv == 0 {
 		cfg.MaxRecv = j.params["N"]
 	}
+	if opt(j.h, tier, "autoshared", "0") == "1" {
+		// pass 1: which pre-existing memory do goroutines write to?
+		cfg.Discover = true
+		tr0, err := eng.ExtractTrees(cfg)
+		if err != nil {
+			return nil, err
+		}
+		cfg.Discover = false
+		cfg.AutoShared = tr0.Written
+	}
 	tr, err := eng.ExtractTrees(cfg)
 	if err != nil {
 		return nil, err
 	}
 	ex := tr.Ex
+	if tr.Opaque && os.Getenv("VERIF_PROGRESS") != "" {
+		fmt.Fprintf(os.Stderr, "[%s] shared memory of non-integer type: only the race and cut queries are meaningful\n", j.label)
+	}
 	if len(ex.Inconcl) > 0 {
 		return ex, nil
 	}
